@@ -71,3 +71,21 @@ func directedKeySizes() []string {
 	}
 	return lines
 }
+
+// Directed output-prefix sweep: every bank key as a single-key keyset with each output_prefix_type value around
+// and outside the enum (0 = UNKNOWN_PREFIX; 6, 7, 100 and 2^32-1 = -1 are no enum values at all; 2^32+1 and
+// 2^32+3 are TINK and RAW after the truncation to int32 that protobuf applies; 2^64-1 = -1).  Most key parsers
+// re-check the prefix themselves; the streaming AEAD parsers never look at it, so for them keyset.Validate is
+// the only gate (seeded change C14g: Validate rejecting only the value 0).
+func directedPrefixes() []string {
+	var lines []string
+	for _, bk := range bank {
+		for _, p := range []uint64{0, 6, 7, 100, 1<<32 - 1, 1<<32 + 1, 1<<32 + 3, 1<<64 - 1} {
+			k := toMKey(bk, 9, 1)
+			k.Prefix = p
+			ks := &mKeyset{Primary: 9, Keys: []mKey{k}}
+			lines = append(lines, fmt.Sprintf("B|%s|prefix-%d:%s", hx.H(ks.Marshal()), p, strings.TrimPrefix(k.URL, tp)))
+		}
+	}
+	return lines
+}
